@@ -293,6 +293,16 @@ func opWire() error {
 					p2 = append(append(append([]byte(nil), payload[:off]...), big...), payload[off+1:]...)
 				}
 				payload = p2
+			case "countHuge":
+				off := countOffset[f.Kind]
+				if off >= len(payload) || payload[off] >= 0xfd {
+					continue
+				}
+				big := make([]byte, 9)
+				big[0] = 0xff
+				v := []uint64{1 << 63, ^uint64(0), 1<<63 + uint64(rng.Int63()), 1<<63 - 1, 1 << 32, 1<<31 + uint64(rng.Int31())}[rng.Intn(6)]
+				binary.LittleEndian.PutUint64(big[1:], v)
+				payload = append(append(append([]byte(nil), payload[:off]...), big...), payload[off+1:]...)
 			case "trailingGarbage":
 				g := make([]byte, 1+rng.Intn(64))
 				rng.Read(g)
